@@ -483,14 +483,30 @@ def extract_numba(tree):
         m = method(ct, prop)
         need(m is not None, f"COOType.{prop} missing")
         used = sorted({n.attr for n in ast.walk(m) if is_attr(n, "self") and n.attr.endswith("_dtype")})
+        if prop == "shape_type" and not used:
+            # UniTuple(types.intp, self.ndim): the extents are native intp values
+            need(any(is_attr(n, "types", "intp") for n in ast.walk(m)), "COOType.shape_type: element type not recognised")
+            used = ["intp"]
         need(len(used) == 1, f"COOType.{prop}: uses {used}")
         src[key] = used[0]
     if True:
         m = method(ct, "shape_type")
         unis = [n for n in ast.walk(m) if isinstance(n, ast.Call) and isinstance(n.func, ast.Attribute) and n.func.attr == "UniTuple"]
         need(len(unis) == 1 and is_attr(unis[0].args[1], "self", "ndim"), "COOType.shape_type is not UniTuple(<dt>, self.ndim)")
+    # impl_COO: how the shape argument is stored into the native record
+    ic = find_func(tree, "impl_COO")
+    stores = [n for n in ast.walk(ic) if isinstance(n, ast.Assign) and len(n.targets) == 1 and is_attr(n.targets[0], "coo", "shape")]
+    need(len(stores) == 1, "impl_COO: not a single store to coo.shape")
+    v = stores[0].value
+    if is_name(v, "shape"):
+        shape_cast = False
+    elif (isinstance(v, ast.Call) and is_attr(v.func, "context", "cast") and len(v.args) == 4 and is_name(v.args[0], "builder")
+          and is_name(v.args[1], "shape") and is_attr(v.args[3], "typ", "shape_type")):
+        shape_cast = True
+    else:
+        raise SiteError(f"impl_COO: unsupported store to coo.shape: {ast.unparse(v)}")
     return {"unbox_fields": fields, "box_class": klass, "box_args": [boxed[p] for p in pos],
-            "box_kwargs": [(k, boxed[v]) for k, v in kw], "dtype_source": src}
+            "box_kwargs": [(k, boxed[v]) for k, v in kw], "dtype_source": src, "construct_shape_cast": shape_cast}
 
 
 # --------------------------------------------------------------------------------- Coq text
@@ -591,6 +607,8 @@ def to_coq(facts, digest):
     o.append(f"Definition nb_box_kwargs : list (string * string) := {cpairs(nb['box_kwargs'])}.")
     o.append("(* which dtype of the COOType types each native field (shape is a UniTuple of it) *)")
     o.append(f"Definition nb_dtype_source : list (string * string) := {cpairs(sorted(nb['dtype_source'].items()))}.")
+    o.append("(* impl_COO stores the shape argument through context.cast(builder, shape, <its type>, typ.shape_type) (true) or raw (false) *)")
+    o.append(f"Definition nb_construct_shape_cast : bool := {cbool(nb['construct_shape_cast'])}.")
     o.append("")
     return "\n".join(o)
 
